@@ -834,7 +834,7 @@ impl Call {
                         return Ok(vec![]);
                     }
                     // the second fill goes through the delivery path of the case (integers or bytes)
-                    if matches!(c.mode, FillMode::Bytes | FillMode::BytesShort) {
+                    if matches!(c.mode, FillMode::Bytes | FillMode::BytesShort | FillMode::BytesChained) {
                         let by = gen::to_le_bytes(&a.samples[..end * a.channels], (a.bps + 7) / 8);
                         fb.fill_le_bytes(&by, (a.bps + 7) / 8).map_err(|e| format!("{e}"))?;
                     } else {
@@ -855,7 +855,7 @@ impl Call {
                     let mut fb = flacenc::source::FrameBuf::with_size(a.channels, c.block).map_err(|e| format!("{e}"))?;
                     // through the delivery path of the case (a byte fill cannot carry a value outside
                     // the byte width, so the two paths may legitimately differ on invalid input)
-                    if matches!(c.mode, FillMode::Bytes | FillMode::BytesShort) {
+                    if matches!(c.mode, FillMode::Bytes | FillMode::BytesShort | FillMode::BytesChained) {
                         let by = gen::to_le_bytes(&a.samples[start * a.channels..end * a.channels], (a.bps + 7) / 8);
                         fb.fill_le_bytes(&by, (a.bps + 7) / 8).map_err(|e| format!("{e}"))?;
                     } else {
